@@ -326,7 +326,7 @@ V_HARNESS(h_mux_sliced)
     V_ASSERT(n == nacc, "rt_same_number_of_lines");
     /* a trailing 2 byte stuffing unit (FF 00) is not stepped over by the demultiplexer's loop (`p < end - 2`), *buffer then stays 2 bytes
      * short of the end although *buffer_left is 0 (doc: "pointing to the end of the buffer on success") - harmless, see report */
-    V_ASSERT(bl == 0 && bp <= buf + used && bp + 2 >= buf + used, "rt_demux_consumed_all");
+    V_ASSERT(bl == 0 && bp >= buf && bp <= buf + used && (unsigned) (bp - buf) + 2 >= used, "rt_demux_consumed_all");   /* offsets, not bp + 2: forming buf + BUF + 2 is itself out of bounds */
     for (j = 0; j < NL; j++)
       if (j < nacc && j < n) check_demuxed(&out[j], &sl[acc[j]], svc_class(sl[acc[j]].id));
   } else {
